@@ -62,9 +62,11 @@ def events(seed, n):
                         slot = "p1" if fmt == "hdf5" else "p2"
                         meta = {"fmt": fmt, "shape": list(shape), "dtype": dt, "names": nm}
                         try:
-                            g.write(path, format=fmt)
+                            # the file name as a str or as a path object (both name the same file)
+                            import pathlib
+                            g.write(pathlib.Path(path) if case % 3 == 1 else path, format=fmt)
                             ev.append({"kind": "Write", "path": slot, "grid": _proj(g), "_m": meta})
-                            back = NssGrid.read(path, format=fmt)
+                            back = NssGrid.read(pathlib.Path(path) if case % 3 == 2 else path, format=fmt)
                             ev.append({"kind": "Read", "path": slot, "grid": _proj(back),
                                        "_m": dict(meta, back_dtype=str(np.asarray(back.data).dtype))})
                         except Exception as ex:
